@@ -4,7 +4,7 @@
    That the library's directory operations refine this model (return codes, tree, file contents, free count) is judged
    per explored history: implementation vs extracted model vs extracted decoder (checks/c02.py). *)
 From Coq Require Import ZArith List Bool.
-From ADF Require Import CPrelude Spec.Names Spec.FsSpec Proofs.FsSpecP Model.Chain Proofs.ChainP.
+From ADF Require Import CPrelude Spec.Names Spec.FsSpec Proofs.FsSpecP Model.Chain Proofs.ChainP Proofs.ChainRenameP.
 Import ListNotations.
 Local Open Scope Z_scope.
 
@@ -55,7 +55,20 @@ Proof. vm_compute. reflexivity. Qed.
 Example C02_chain_valid_history : valid false (fun _ => None) [CIns [97] 900; CDel [97]].
 Proof. simpl. repeat split; intros; discriminate. Qed.
 
+(* a rename inside a directory (unlink under the old name, link the same block under the new one - the steps the correspondence feeds the model for
+   every rename the library performs): the entry keeps its block, is found under the new name and no longer under the old one (unless both fold to
+   the same key), and every other name of the directory resolves exactly as before *)
+Theorem C02_rename_keeps_block_and_bystanders : forall intl F G d A n m b, R intl F d A -> (S F <= G)%nat -> A (key intl n) = Some b ->
+  (A (key intl m) = None \/ key intl m = key intl n) ->
+  exists d1 d2, remove intl G d n = Some (d1, b) /\ insert intl G d1 m b = Some d2 /\ R intl (S F) d2 (ains intl (adel intl A n) m b).
+Proof. exact rename_refines. Qed.
+
+Theorem C02_rename_resolution : forall intl A n m b k, let A' := ains intl (adel intl A n) m b in
+  A' (key intl m) = Some b /\ (k <> key intl m -> k <> key intl n -> A' k = A k) /\ (key intl m <> key intl n -> A' (key intl n) = None).
+Proof. exact rename_lookup. Qed.
+
 Print Assumptions C02_directory_refines_map.
+Print Assumptions C02_rename_keeps_block_and_bystanders.
 Print Assumptions C02_empty_directory.
 Print Assumptions C02_delete_exact.
 Print Assumptions C02_chain_fail_identity.
